@@ -113,25 +113,61 @@ theorem Dia.off_inj (X : Dia α) (h : X.wf = true) (a b : Nat) (ha : a < X.offse
   exact (List.getElem_inj hnd).1 e
 
 omit [Semiring α] [DecidableEq α] in
-theorem Dia.order_perm (X : Dia α) : X.order.Perm (List.range X.offsets.size) := List.mergeSort_perm _ _
+theorem insOff_perm (off : Nat → Int) (k : Nat) (l : List Nat) : (insOff off k l).Perm (k :: l) := by
+  induction l with
+  | nil => exact List.Perm.refl _
+  | cons a l ih =>
+    unfold insOff
+    split
+    · exact List.Perm.refl _
+    · exact (List.Perm.cons a ih).trans (List.Perm.swap k a l)
+
+omit [Semiring α] [DecidableEq α] in
+theorem sortOff_perm (off : Nat → Int) (l : List Nat) : (sortOff off l).Perm l := by
+  induction l with
+  | nil => exact List.Perm.refl _
+  | cons a l ih => exact (insOff_perm off a _).trans (List.Perm.cons a ih)
+
+omit [Semiring α] [DecidableEq α] in
+theorem insOff_sorted (off : Nat → Int) (k : Nat) (l : List Nat) (h : l.Pairwise (fun a b => off a ≤ off b)) :
+    (insOff off k l).Pairwise (fun a b => off a ≤ off b) := by
+  induction l with
+  | nil => exact List.pairwise_singleton _ _
+  | cons a l ih =>
+    unfold insOff
+    obtain ⟨h1, h2⟩ := List.pairwise_cons.1 h
+    split
+    · rename_i hle
+      refine List.pairwise_cons.2 ⟨?_, h⟩
+      intro b hb
+      rcases List.mem_cons.1 hb with rfl | hb
+      · exact hle
+      · exact Int.le_trans hle (h1 b hb)
+    · rename_i hle
+      refine List.pairwise_cons.2 ⟨?_, ih h2⟩
+      intro b hb
+      rcases List.mem_cons.1 ((insOff_perm off k l).mem_iff.1 hb) with rfl | hb
+      · omega
+      · exact h1 b hb
+
+omit [Semiring α] [DecidableEq α] in
+theorem sortOff_sorted (off : Nat → Int) (l : List Nat) : (sortOff off l).Pairwise (fun a b => off a ≤ off b) := by
+  induction l with
+  | nil => exact List.Pairwise.nil
+  | cons a l ih => exact insOff_sorted off a _ ih
+
+omit [Semiring α] [DecidableEq α] in
+theorem Dia.order_perm (X : Dia α) : X.order.Perm (List.range X.offsets.size) := sortOff_perm _ _
 
 omit [Semiring α] [DecidableEq α] in
 /-- `argsort(offsets)` lists the diagonals by strictly increasing offset -/
 theorem Dia.order_sorted (X : Dia α) (h : X.wf = true) : X.order.Pairwise (fun a b => X.off a < X.off b) := by
-  have h1 : X.order.Pairwise (fun a b => decide (X.off a ≤ X.off b) = true) := by
-    apply List.pairwise_mergeSort
-    · intro a b c hab hbc
-      simp only [decide_eq_true_eq] at hab hbc ⊢
-      omega
-    · intro a b
-      simp only [Bool.or_eq_true, decide_eq_true_eq]
-      omega
+  have h1 : X.order.Pairwise (fun a b => X.off a ≤ X.off b) := sortOff_sorted _ _
   have h2 : X.order.Nodup := (X.order_perm.nodup_iff).2 List.nodup_range
   have h3 := List.Pairwise.and h1 h2
   apply List.Pairwise.imp_of_mem _ h3
   intro a b ha hb hab
   obtain ⟨hle, hne⟩ := hab
-  simp only [decide_eq_true_eq] at hle
   have ha' : a < X.offsets.size := List.mem_range.1 ((X.order_perm.mem_iff).1 ha)
   have hb' : b < X.offsets.size := List.mem_range.1 ((X.order_perm.mem_iff).1 hb)
   have : X.off a ≠ X.off b := fun e => hne (X.off_inj h a b ha' hb' e)
